@@ -366,6 +366,7 @@ pub fn run(ctx: &Ctx) -> (Spec, Report) {
         |rng: &mut Rng, i| {
             let m = gen_model(rng, if i < n_exh { Some(i) } else { None });
             let src = render(&m);
+            let src = if rng.chance(1, 4) { crate::model::relayout(&src, rng.range(1, 4)) } else { src };
             let langs: Vec<(LangId, LangCfg)> = ALL_LANGS
                 .iter()
                 // generic tagged enums are not supported by the Go and Python backends
